@@ -299,7 +299,7 @@ def run(ctx):
     ctx.rule = ("one evaluation = one operation (cut selection / vertex subset / trailing-edge removal / permutation) on one zoo lattice, "
                 "compared exactly with the model and judged against an independent recomputation and the plaquette statements; "
                 "non-trivial = the operation changes the lattice; distinct by (lattice, operation, argument)")
-    rep0 = translate.regenerate_all()
+    rep0 = core.guarded_translate(ctx, translate.regenerate_all, "T-int/T-const", dict(kernels=[], tables=[], changed={}))
     ctx.translated = [k for k in rep0["kernels"] if k["kernel"] == "cut_keep"]
     ctx.run_audit()
     rng = np.random.default_rng(ctx.seed)
